@@ -162,6 +162,8 @@ type Store struct {
 	Gate func(context.Context, *Request)
 	// ssa engine
 	ssa *ssaEngine
+	// born: request sequence at which the current incarnation of an object was created
+	born map[Key]int64
 	// refAppliers: per object, ownerReference uid -> apply managers owning the entry
 	refAppliers map[Key]map[string]map[string]bool
 }
@@ -418,6 +420,15 @@ type writeOpts struct {
 
 func (s *Store) commitLocked(key Key, obj Obj) {
 	s.seq++
+	if s.born == nil {
+		s.born = map[Key]int64{}
+	}
+	if _, exists := s.objs[key]; !exists && obj != nil {
+		s.born[key] = int64(s.reqSeq)
+	}
+	if obj == nil {
+		delete(s.born, key)
+	}
 	if obj != nil {
 		metaOf(obj)["resourceVersion"] = strconv.FormatInt(s.seq, 10)
 		s.objs[key] = obj
@@ -741,6 +752,16 @@ func selectorMatches(sel labels.Selector, o Obj) bool {
 }
 
 // listLocked returns copies sorted by namespace/name.
+// youngLocked: the object was created within the last n requests (age is measured in requests so that
+// a created object becomes visible to every cache after finitely many further requests).
+func (s *Store) youngLocked(key Key, n int64) bool {
+	if n <= 0 {
+		return false
+	}
+	b, ok := s.born[key]
+	return ok && b > int64(s.reqSeq)-n
+}
+
 func (s *Store) listLocked(k *KindInfo, ns string, sel labels.Selector, lag int64, keep func(Obj) bool) []Obj {
 	var out []Obj
 	keys := make([]Key, 0)
